@@ -59,6 +59,11 @@ CLAIMS = {
    note="Trusted: one write() on a buffered pipe file is atomic; socket sendall = loop of partial sends; payload identity via (type, id, length, uniform fill byte). Real-transport part cannot choose schedules.",
    technique="TLA+ wire model model-checked with TLC (incl. mutant); real framing code over scripted files/sockets under explored schedules/chunkings + real transports; executions validated by TLC against the TLA+ property automaton",
    ref="5/C08"),
+ "C14": dict(
+   text="spec/ExecSched.tla models _local_schedulexec (wait on _executetask_complete with the 1 s time-out firing only at quiescence, clear, spawn), the main_thread_only mailbox hand-over, the main thread and executetask's epilogue for ALL histories of outcomes {return, raise, SystemExit, blocked} x {sequential, overlapping} of length <= 3 (thorough 4); TLC checks start order, that the deadlock error is only produced while a body occupies the main thread and never for a sequential submission, that every submission is answered, and kills two mutants (event set on the success path only; event cleared after spawn). The same histories run on the real WorkerGateway(main_thread_only)+initiator in the simulator (line-level preemption in the scheduling functions) and on real popen//execmodel=main_thread_only workers; TLC judges every trace with spec/ExecAbs.tla (main thread, one at a time, submission order, no false deadlock, earlier body undisturbed).",
+   note="Trusted: simulator primitives and virtual time (1 s wait expires only at quiescence); KeyboardInterrupt outcome not driven in the simulator. Histories bounded in length.",
+   technique="TLA+ model of main_thread_only scheduling model-checked with TLC over all bounded histories (incl. 2 mutants); real worker+initiator under deterministic schedule exploration and real popen workers; traces validated by TLC against the TLA+ property automaton",
+   ref="5/C14"),
 }
 
 NOT_YET = {}
